@@ -565,45 +565,69 @@ func testPatternCount(w *World, n *types.Named) int {
 
 // byteRecurrence: finds `v := C0; loop { ...; v = (v + C1) & C2 }` over a
 // byte-typed variable and returns (C0, C1, C2).
-func byteRecurrence(fn *ssa.Function) (c0, c1, c2 int64, ok bool) {
-	if fn == nil {
+func byteRecurrence(entry *ssa.Function) (c0, c1, c2 int64, ok bool) {
+	if entry == nil {
 		return
 	}
-	allInstrs(fn, func(in ssa.Instruction) {
-		ph, isPhi := in.(*ssa.Phi)
-		if !isPhi || ok {
-			return
-		}
-		bt, isB := ph.Type().Underlying().(*types.Basic)
-		if !isB || bt.Kind() != types.Uint8 || len(ph.Edges) != 2 {
-			return
-		}
-		var init int64
-		haveInit := false
-		var upd ssa.Value
-		for _, e := range ph.Edges {
-			if c, isC := constIntVal(e); isC {
-				init, haveInit = c, true
-			} else {
-				upd = e
+	// (x + C1) & C2 over the loop variable x; the expression may live in a one-block step helper applied to x
+	var stepOf func(upd ssa.Value, x ssa.Value, depth int) (inc, mask int64, ok bool)
+	stepOf = func(upd ssa.Value, x ssa.Value, depth int) (inc, mask int64, ok bool) {
+		mask = 255
+		if call, isCall := upd.(*ssa.Call); isCall && depth < 2 {
+			h := call.Call.StaticCallee()
+			if h == nil || !inModule(h) || len(h.Blocks) != 1 || len(call.Call.Args) != 1 || call.Call.Args[0] != x || len(h.Params) != 1 {
+				return 0, 0, false
 			}
+			ret, isRet := h.Blocks[0].Instrs[len(h.Blocks[0].Instrs)-1].(*ssa.Return)
+			if !isRet || len(ret.Results) != 1 {
+				return 0, 0, false
+			}
+			return stepOf(ret.Results[0], h.Params[0], depth+1)
 		}
-		if !haveInit || upd == nil {
-			return
-		}
-		mask := int64(255)
 		if b, isBo := upd.(*ssa.BinOp); isBo && b.Op == token.AND {
 			if m, isC := constIntVal(b.Y); isC {
 				mask = m
 				upd = b.X
 			}
 		}
-		if b, isBo := upd.(*ssa.BinOp); isBo && b.Op == token.ADD && b.X == ssa.Value(ph) {
-			if inc, isC := constIntVal(b.Y); isC {
-				c0, c1, c2, ok = init, inc, mask, true
+		if b, isBo := upd.(*ssa.BinOp); isBo && b.Op == token.ADD && b.X == x {
+			if c, isC := constIntVal(b.Y); isC {
+				return c, mask, true
 			}
 		}
-	})
+		return 0, 0, false
+	}
+	for _, fn := range staticCone(entry, 2) {
+		allInstrs(fn, func(in ssa.Instruction) {
+			ph, isPhi := in.(*ssa.Phi)
+			if !isPhi || ok {
+				return
+			}
+			bt, isB := ph.Type().Underlying().(*types.Basic)
+			if !isB || bt.Kind() != types.Uint8 || len(ph.Edges) != 2 {
+				return
+			}
+			var init int64
+			haveInit := false
+			var upd ssa.Value
+			for _, e := range ph.Edges {
+				if c, isC := constIntVal(e); isC {
+					init, haveInit = c, true
+				} else {
+					upd = e
+				}
+			}
+			if !haveInit || upd == nil {
+				return
+			}
+			if inc, mask, isStep := stepOf(upd, ph, 0); isStep {
+				c0, c1, c2, ok = init, inc, mask, true
+			}
+		})
+		if ok {
+			return
+		}
+	}
 	return
 }
 
@@ -933,6 +957,43 @@ func c11ProbedIsCommitted(w *World, r *Report) {
 				flow(e, d+1)
 			}
 			return
+		case *ssa.Parameter:
+			// a parameter of a verdict helper: what the detection function passes for it
+			if h := x.Parent(); h != fn {
+				if i := paramIndex(h, x); i >= 0 {
+					mapped := false
+					for _, g := range staticCone(fn, 2) {
+						for _, c := range callsIn(g) {
+							if c.Common().StaticCallee() == h && i < len(c.Common().Args) {
+								mapped = true
+								flow(c.Common().Args[i], d+1)
+							}
+						}
+					}
+					if mapped {
+						return
+					}
+				}
+			}
+		case *ssa.Extract:
+			// the size comes out of a helper (`return dc.usableFragmentSize(max)`): follow what the helper returns on success
+			if call, ok := x.Tuple.(*ssa.Call); ok {
+				if h := call.Call.StaticCallee(); h != nil && inModule(h) && len(h.Blocks) > 0 {
+					for _, b := range h.Blocks {
+						ret, ok := b.Instrs[len(b.Instrs)-1].(*ssa.Return)
+						if !ok || x.Index >= len(ret.Results) {
+							continue
+						}
+						if n := len(ret.Results); n >= 2 && isErrorType(ret.Results[n-1].Type()) && !isConstNil(ret.Results[n-1]) {
+							if _, isEx := ret.Results[n-1].(*ssa.Extract); !isEx {
+								continue // a failure return of the helper
+							}
+						}
+						flow(ret.Results[x.Index], d+1)
+					}
+					return
+				}
+			}
 		case *ssa.BinOp:
 			// max - 2 and the like: follow the non-constant operand
 			if _, isC := x.Y.(*ssa.Const); isC {
@@ -962,7 +1023,12 @@ func c11ProbedIsCommitted(w *World, r *Report) {
 			continue
 		}
 		if !isConstNil(ret.Results[1]) {
-			continue
+			// a tail call `return helper(...)`: the helper's successful returns decide
+			e0, ok0 := ret.Results[0].(*ssa.Extract)
+			e1, ok1 := ret.Results[1].(*ssa.Extract)
+			if !ok0 || !ok1 || e0.Tuple != e1.Tuple {
+				continue
+			}
 		}
 		flow(ret.Results[0], 0)
 	}
